@@ -15,9 +15,9 @@ PROPS = {
         "quick_s": 9, "thorough_s": 300,
         "level": "exploration",
         "rule": ("one evaluation = one simulated run of generated per-task lock/trylock/unlock scripts (2-5 tasks, 1-3 PMutex/PSpinLock objects) under one seeded "
-                 "schedule, preemptible before every atomic, fence, volatile access and pthread call of the library; distinct = distinct hash of "
+                 "schedule, preemptible before every atomic, fence, volatile access and pthread call of the library; 1 run in 100 first ages every lock by 2^8, 2^15 or 2^16 (+-1, +-2) uncontended acquisitions; distinct = distinct hash of "
                  "(per-lock acquisition order, event log); non-trivial = more than one context switch or one fired fault"),
-        "probes": ["lock.trylock_succeeded", "lock.trylock_busy", "lock.nested"],
+        "probes": ["lock.trylock_succeeded", "lock.trylock_busy", "lock.nested", "lock.aged"],
         "components": {"real": ["pmutex-posix.c", "pspinlock-c11.c", "pspinlock-sync.c", "pspinlock-sim.c", "pmem.c", "pmain.c", "puthread.c (init only)"],
                        "stub": STUB_PTHREAD + ["execution of __atomic/__sync builtins and volatile accesses (own __tsan_* runtime)"]},
         "assumptions": COMMON_ASSUME + ["simulated pthread mutex states POSIX semantics", "happens-before from declared memory orders (c11) / x86 view of volatile+fence (sync)"],
@@ -60,7 +60,7 @@ PROPS = {
                  "broadcast on one), a gate (1-5 waiters, one broadcast) or a single parked waiter signalled once, under one seeded schedule with spurious wake-ups and "
                  "extra waiters released by signal as faults; distinct = distinct hash of (wake order, event log); non-trivial = more than one context switch or one fired fault"),
         "probes": ["bb.consumer_waited", "bb.producer_waited", "cond.signal_with_waiter", "cond.broadcast_with_2_waiters", "cond.signal_to_parked_waiter",
-                   "cond.spurious_wakeup", "cond.signal_woke_two"],
+                   "cond.spurious_wakeup", "cond.signal_woke_two", "cond.notify_without_mutex"],
         "components": {"real": ["pcondvariable-posix.c", "pmutex-posix.c", "pmem.c", "pmain.c"], "stub": STUB_PTHREAD},
         "assumptions": COMMON_ASSUME + ["simulated pthread_cond_* / pthread_mutex_* state POSIX semantics"],
     },
@@ -79,21 +79,23 @@ PROPS = {
                                         "handle release observed through the tracking allocator (the PUThread block returned by p_uthread_create)"],
     },
     "C06": {
+        "conformance": True,
         "harness": "ipc_sem",
         "variants": ["T.c11.posix", "A.c11.posix"],
         "quick_s": 12, "thorough_s": 300,
         "level": "exploration",
         "rule": ("one evaluation = one simulated run: 1-3 simulated processes x 1-2 tasks run generated scripts of new(OPEN|CREATE, value 0-3)/acquire/release/"
-                 "take_ownership/free on two names (life-cycle calls serialised, acquire/release concurrent), optionally with a SIGKILL of one process before/after its "
+                 "take_ownership/free on two names (life-cycle calls serialised in 3 of 4 runs, acquire/release always concurrent; in 1 of 4 runs everything overlaps and only the interleaving-proof oracles apply), optionally with a SIGKILL of one process before/after its "
                  "k-th IPC system call and EINTR injection, followed by the documented clean-up (open, take ownership, free, create) from a fresh process; "
                  "distinct = distinct hash of (per-name operation order, event log); non-trivial = more than one context switch or one fired fault"),
         "probes": ["sem.open_existing", "sem.create_on_existing", "sem.owner_free", "sem.take_ownership", "sem.wait_blocked", "sem.kill_happened",
-                   "sem.same_process_reopen", "sem.acquire_cancelled_at_quiescence", "eintr.sem_wait"],
+                   "sem.same_process_reopen", "sem.acquire_cancelled_at_quiescence", "eintr.sem_wait", "sem.concurrent_created", "sem.new_failed_under_overlap"],
         "components": {"real": ["psemaphore-posix.c", "pipc.c", "pcryptohash.c + pcryptohash-sha1.c (name hashing)", "perror.c", "pmem.c", "pmain.c"], "stub": STUB_KERNEL + STUB_PTHREAD},
         "assumptions": COMMON_ASSUME + ["POSIX semaphore name space modelled with Linux/glibc semantics (same name in one process = one reference-counted sem_t, unlink keeps open objects alive)",
                                         "simulated processes share one address space; kills happen at IPC system calls"],
     },
     "C07": {
+        "conformance": True,
         "harness": "ipc_shm",
         "variants": ["T.c11.posix", "A.c11.posix"],
         "quick_s": 14, "thorough_s": 300,
@@ -110,6 +112,7 @@ PROPS = {
                                         "simulated processes share one address space; kills happen at IPC system calls"],
     },
     "C08": {
+        "conformance": True,
         "harness": "shmbuf",
         "variants": ["A.c11.posix", "T.c11.posix"],
         "quick_s": 12, "thorough_s": 300,
@@ -125,6 +128,7 @@ PROPS = {
                                         "linearizability search capped at 40 calls and 6e5 nodes (beyond: inconclusive, counted)"],
     },
     "C09": {
+        "conformance": True,
         "harness": "sock_data",
         "variants": ["A.c11.posix"],
         "quick_s": 12, "thorough_s": 300,
@@ -142,6 +146,7 @@ PROPS = {
                                         "after EINTR on connect the model only offers what Linux offers a non-blocking connect (EALREADY, then 0)"],
     },
     "C10": {
+        "conformance": True,
         "harness": "sock_state",
         "variants": ["A.c11.posix"],
         "quick_s": 10, "thorough_s": 240,
@@ -158,6 +163,7 @@ PROPS = {
                                         "the scripted peer talks to the simulated kernel directly (raw calls), not through the library"],
     },
     "C19": {
+        "conformance": True,
         "harness": "eintr",
         "variants": ["A.c11.posix"],
         "quick_s": 10, "thorough_s": 240,
@@ -192,6 +198,7 @@ PROPS = {
                                         "k is sampled uniformly per scenario; with >1e5 runs per check every (scenario, k, mode) triple is hit many times (coverage reported through probes)"],
     },
     "C20": {
+        "conformance": True,
         "harness": "neutral",
         "variants": ["A.c11.posix", "A.c11.general"],
         "quick_s": 14, "thorough_s": 300,
